@@ -22,6 +22,13 @@
   R7  staged job counts: every job adds exactly 1 under its own group; the counts reach the group and all its ancestors through
       INSERT .. SELECT over the closure rows and accumulate on duplicate key; a roll-up moved into Python is checked for shared mutable
       accumulator slots (alias analysis) and otherwise declined
+  R8  atomicity of the completion step (same abstract execution, ordered trace of writes and transaction statements with CALLed procedures inlined):
+      on every abstract path the write that makes the job terminal, the tally increments and the completion writes for the batch and every ancestor
+      group are in ONE transaction - no COMMIT / START TRANSACTION / ROLLBACK between them (a retried call finds the job terminal and does nothing)
+  R9  the reported status is read from the database by the request that reports it (engines/c0506facts.py part 3, provenance dataflow): the record
+      given to batch_record_to_dict / job_group_record_to_dict is a query result of the same invocation; no status reader - up to the HTTP / UI
+      handlers - returns a value read back from state that outlives the request and holds status dicts (app[...] entries, module / class level
+      containers, cache objects built around a reader); no reader or converter is memoised by a decorator
 Not decided: histories; callbacks' payloads (reporting only).
 """
 from __future__ import annotations
@@ -29,11 +36,12 @@ from __future__ import annotations
 import ast
 from typing import Dict, List, Tuple
 
+from engines import c0506facts as cf
 from engines import jobgraphfacts as jg
 from engines import pyfacts as pf
 from engines import sqlfront as sf
 from engines import sqlrules as sr
-from engines.common import AnalysisError, Ctx
+from engines.common import AnalysisError, AnchorRemoved, Ctx
 from engines.sqlast import N, text
 
 META = dict(
@@ -89,6 +97,7 @@ def r123(ctx: Ctx, prog: sf.SqlProgram) -> None:
         try:
             ex = jg.AbsExec(prog, scn, case)
             ex.tolerate = {'jobs'}
+            ex.track_txn = True
             ex.call('mark_job_complete', {'in_batch_id': syms['B'], 'in_job_id': syms['J'], 'new_state': jg.EnumVal('new_state'), 'in_attempt_id': syms['A'], 'new_timestamp': jg.Sym('new_timestamp')})
         except jg.Mismatch as mm:
             key = {TALLY: 'fanout', 'job_groups': 'group completion', 'batches': 'batch completion'}.get(mm.table)
@@ -146,6 +155,26 @@ def r123(ctx: Ctx, prog: sf.SqlProgram) -> None:
         if gotb != wantb or not E.eq(b['n_jobs'], scn.rows[('batches', 'b')]['n_jobs']):
             fails['batch completion'] = (f'the batch, which had {"exactly one unfinished job (this one)" if lastb else "at least two unfinished jobs"} before the call, ends with (state, time_completed) = {gotb}, '
                                          f'expected {wantb}: the batch is complete exactly when the root tally, AFTER this job has been counted, equals batches.n_jobs', r.file, r.line)
+        # ---- R8 atomicity of the completion step: on this abstract path, the statement that makes the job terminal, the tally increments and every
+        # completion write (batch row, job_groups rows of the chain) lie in ONE transaction: no COMMIT / START TRANSACTION / ROLLBACK between any two of them
+        # (statement order of the path actually taken, CALLed procedures inlined).
+        marks = [i for i, ev in enumerate(ex.trace) if ev[0] == 'write' and (ev[3] == ('jobs', 'own') or ev[3][0] in (TALLY, 'job_groups', 'batches'))]
+        cuts = [i for i, ev in enumerate(ex.trace) if ev[0] == 'txn' and marks and marks[0] < i < marks[-1]]
+        if cuts:
+            ci = cuts[0]
+            before = [ex.trace[i] for i in marks if i < ci]
+            after = [ex.trace[i] for i in marks if i > ci]
+            tst = ex.trace[ci][2]
+
+            def what(ev) -> str:
+                return {'jobs': 'the job\'s own terminal state', TALLY: 'the tallies (n_completed, ...)', 'job_groups': 'the completion of a job group', 'batches': 'the completion of the batch'}[ev[3][0]]
+            trt = prog.routines.get(ex.trace[ci][1])
+            f_, l_ = (trt.file, trt.line_of(tst)) if trt is not None and hasattr(tst, 'pos') else where(tst)
+            fails['atomic'] = (f'`{tst.what}` (in {ex.trace[ci][1]}) ends the transaction after `{text(before[-1][2])[:70]}` has written {what(before[-1])} and before `{text(after[0][2])[:70]}` decides {what(after[0])}: '
+                               f'{", ".join(dict.fromkeys(what(e) for e in before))} become durable while {", ".join(dict.fromkeys(what(e) for e in after))} are still undecided.  History: this job is the last unfinished job of '
+                               'the batch / of a job group; the connection is lost, or the second transaction is chosen as deadlock victim or times out on a row lock held by commit_batch_update / cancel_job_group, right after '
+                               'that statement; gear retries the CALL (and the worker re-posts job_complete), the retry finds the job already terminal and - see the instance `only with the transition` - '
+                               'changes nothing: n_completed = n_jobs, yet the batch / group stays \'running\' with time_completed NULL for ever', f_, l_)
         for t in ('own', 'root'):
             if not unchanged_groups(t) and 'group completion' not in fails:
                 # the own / root rows are represented by the generic ancestor in the loop; a direct write to them is outside the canonical walk
@@ -174,6 +203,7 @@ def r123(ctx: Ctx, prog: sf.SqlProgram) -> None:
     emit('R3', 'group completion', f'{cons}::group completion')
     emit('R3', 'batch completion', f'{cons}::batch completion')
     emit('R3', 'transition', f'{cons}::only with the transition')
+    emit('R8', 'atomic', f'{cons}::job state, tallies and completion decided in one transaction')
     ctx.unit('completion_abstract_cases', len(results))
 
 
@@ -299,7 +329,9 @@ def r5(ctx: Ctx) -> None:
     for rel, q, kind in READ_SITES:
         m = pf.load(rel)
         fn = m.func(q)
-        embs = [e for e in sf.embedded_in(m) if e.fn is fn and e.sql_text and TALLY in e.sql_text]
+        # the reader's query, also when it has been moved into a helper function of the module (engines/c0506facts.collect_queries follows local calls)
+        embs = [qi.emb for qi in cf.collect_queries(m, fn) if qi.emb.sql_text and TALLY in qi.emb.sql_text]
+        embs = [e for i, e in enumerate(embs) if not any(e is x for x in embs[:i])]
         ctx.need(len(embs) == 1, f'{rel}::{q}: reader query not found')
         e = embs[0]
         st = e.stmts()[0]
@@ -456,8 +488,49 @@ def r7(ctx: Ctx, prog: sf.SqlProgram) -> None:
               'the mapping the staging rows are built from', m.path, inc_.lineno)
 
 
+def r9(ctx: Ctx) -> None:
+    """The status the API reports is read from the database by the request that reports it (engines/c0506facts.py part 3).  Completion and
+    the counts live in the database and change under the readers' feet (commit_batch_update re-opens a complete batch, other replicas
+    commit / cancel / complete): a status dict that is kept in state that outlives the request - an app[...] entry, a module-level or
+    class-level container, the memo of a caching decorator or cache object - and served again is a report that does not reflect the jobs.
+    Decided by provenance (def-use dataflow, helpers of the module followed): (a) the record handed to batch_record_to_dict /
+    job_group_record_to_dict is the result of a query executed on the database handle in the same invocation; (b) no reader - a function
+    that calls a converter, or that calls / passes on such a function, up to the HTTP handlers - returns a value read back from a
+    retained object into which the module stores status dicts (or that is built around a reader, like Cache(loader)); (c) no reader,
+    and no converter, is wrapped by a memoising decorator."""
+    rel = 'batch/batch/front_end/front_end.py'
+    m = pf.load(rel)
+    findings, sp = cf.check_status_provenance(m)
+    for want in ('_get_batch', '_get_job_group'):
+        ctx.need(any(sp.qual[i] == want for i in sp.direct), f'{rel}::{want} no longer calls a record -> dict converter (status readers not recognised)')
+    bm = pf.load('batch/batch/batch.py')
+    for fname in cf.CONVERTERS:
+        dec = cf.memo_decorator(bm.func(fname))
+        ctx.check(dec is None, 'R9', f'{bm.rel}::{fname}::not memoised', f'{fname} is wrapped by @{dec}: the reported dict is remembered per process instead of being rebuilt from the record read by the request', bm.path, bm.func(fname).lineno)
+    extra = []
+    if ctx.tier == 'thorough':
+        for r2 in pf.walk_py(['batch/batch']):
+            if r2 == rel:
+                continue
+            m2 = pf.load(r2)
+            if not any(c in m2.src for c in cf.CONVERTERS) or r2 == bm.rel:
+                continue
+            extra += [(m2, f) for f in cf.check_status_provenance(m2)[0] if f.status == 'bad']
+    undec = [f for f in findings if f.status == 'undecided']
+    anybad = False
+    for mod, f in [(m, f) for f in findings] + extra:
+        if f.status == 'ok':
+            ctx.ok('R9', f.construct, f.message)
+        elif f.status == 'bad':
+            anybad = True
+            ctx.bad('R9', f.construct, f.message, mod.path, f.line)
+    ctx.need(not undec or anybad, (undec[0].construct + ': ' + undec[0].message) if undec else '')
+    ctx.unit('status_readers', len(sp.readers))
+
+
 def run(ctx: Ctx) -> None:
-    ctx.explanation = 'Abstract execution of mark_job_complete / mark_job_group_complete / commit_batch_update over symbolic rows; who-may-write and shape of the closure table and of the staged job counts; API readers.'
+    ctx.explanation = ('Abstract execution of mark_job_complete / mark_job_group_complete / commit_batch_update over symbolic rows (effects, and the order of writes and transaction statements); who-may-write and shape of '
+                       'the closure table and of the staged job counts; API readers: source tables, unmodified copies, and provenance of the reported status (database query of the same request).')
     ctx.rule('R1', 'tallies are incremented for exactly the job\'s group and every ancestor (normal form of the selection), once', 1)
     ctx.rule('R2', 'per terminal state: completed +1 and exactly the matching category +1', 4)
     ctx.rule('R3', 'completion (abstract execution): every self-or-ancestor group, and the batch, is marked complete iff its own n_completed after counting this job equals its own n_jobs; only with the job\'s terminal transition; the job counts compared are read under a lock', 5)
@@ -467,10 +540,20 @@ def run(ctx: Ctx) -> None:
              'for the group whose job_groups row the same function inserts, on the same transaction, the copy for every non-root group', 5)
     ctx.rule('R7', 'staged job counts: every job adds 1 under its own group; the counts are inserted for the group and all its ancestors (INSERT .. SELECT over the closure rows) and accumulate; '
              'a Python roll-up must not share one mutable object between accumulator slots', 3)
+    ctx.rule('R8', 'atomicity of the completion step (abstract execution, statement order with CALLed procedures inlined): on every path of mark_job_complete the write that makes the job terminal, the tally increments and '
+             'the completion writes for the batch and every ancestor group are in ONE transaction - no COMMIT / START TRANSACTION / ROLLBACK between them (a retried call takes the already-complete no-op branch)', 1)
+    ctx.rule('R9', 'reported status is read from the database by the request that reports it: the records given to the record -> dict converters are query results of the same invocation, no status reader '
+             '(up to the HTTP handlers) returns a status read back from state that outlives the request, none is memoised', 12)
+    ctx.assume('functions imported from other modules (json_response, render_template, ...) are pure in the sense that they answer from their arguments only')
     prog = sf.load_program()
-    r123(ctx, prog)
-    r3_locks(ctx, prog)
-    r4(ctx, prog)
-    r5(ctx)
-    r6(ctx, prog)
-    r7(ctx, prog)
+    # every rule is evaluated even when an earlier one declines: a violation established by a recognised shape is reported, otherwise the first decline stands
+    first = None
+    for step in (lambda: r123(ctx, prog), lambda: r3_locks(ctx, prog), lambda: r4(ctx, prog), lambda: r5(ctx), lambda: r6(ctx, prog), lambda: r7(ctx, prog), lambda: r9(ctx)):
+        try:
+            step()
+        except AnchorRemoved:
+            raise
+        except AnalysisError as e:
+            first = first or e
+    if first is not None:
+        raise first
